@@ -434,7 +434,38 @@ def pred_c12(prog, case, outs, tables):
     return bad
 
 
-PREDS = {"C01": pred_c01, "C02": pred_c02, "C03": pred_c03, "C04": pred_c04, "C06": pred_c06, "C09": pred_c09,
+def pred_c05(prog, case, outs, tables):
+    """reading a leaf by key and writing the produced bytes back by the same key is the identity on the tree"""
+    bad = []
+    for j, (op, o) in enumerate(zip(case["ops"], outs)):
+        if op["op"] != "rt" or o == PANIC or not isinstance(o, list) or not o:
+            continue
+        if o[0] == 1:
+            r2, fin, delta = o[1], o[2], o[5]
+            if delta != [1]:
+                bad.append((j, "%s get then set by the same key changed the tree (set returned %r)" % ("postcard" if op.get("pc") else "json", r2)))
+            elif r2 == [0] and not fin:
+                bad.append((j, "%s set did not consume exactly the bytes get produced" % ("postcard" if op.get("pc") else "json")))
+    # writing a value and reading it back by the same key returns that value
+    ops = case["ops"]
+    for j in range(len(ops) - 1):
+        w, r = ops[j], ops[j + 1]
+        if w["op"] != "de" or not r.get("_readback") or r["op"] != "ser" or w.get("_steps") != r.get("_steps"):
+            continue
+        ow, orr = outs[j], outs[j + 1]
+        if ow == PANIC or orr == PANIC or res_kind(ow[0])[0] != "ok" or not ow[1] or res_kind(orr[0])[0] != "ok":
+            continue
+        try:
+            want = json.loads(bytes(w["payload"]).decode())
+            got = json.loads(bytes(orr[1]).decode())
+        except Exception:
+            continue
+        if got != want:
+            bad.append((j + 1, "wrote %r, read back %r by the same key" % (want, got)))
+    return bad
+
+
+PREDS = {"C05": pred_c05, "C01": pred_c01, "C02": pred_c02, "C03": pred_c03, "C04": pred_c04, "C06": pred_c06, "C09": pred_c09,
          "C11": pred_c11, "C12": pred_c12, "C16": pred_c16}
 
 
@@ -458,6 +489,8 @@ def in_channel(prop, prog, op, impl, model):
         return o in ("ser", "de", "ref", "mut", "rawtrav") and differs(0)
     if prop == "C04":
         return o in ("transcode", "rawtrav")
+    if prop == "C05":
+        return o == "rt" or (o == "ser" and bool(op.get("_readback")) and differs(1))
     if prop == "C12":
         return o in ("ser", "de", "ref", "mut") and (differs(-2) or (differs(0) and bool(op.get("oracle"))) or (differs(0) and SP_has_attrs(prog)))
     if prop == "C06":
@@ -569,7 +602,7 @@ def finding_key(prop, f):
     return "none"
 
 
-RELEVANT = {"C01": ("ser", "de", "ref", "mut"), "C02": ("transcode", "ser", "de", "ref", "mut", "rawtrav"),
+RELEVANT = {"C05": ("rt", "de", "ser"), "C01": ("ser", "de", "ref", "mut"), "C02": ("transcode", "ser", "de", "ref", "mut", "rawtrav"),
             "C03": ("iter",), "C04": ("transcode", "rawtrav"), "C06": ("meta", "transcode"), "C09": ("transcode", "iter", "meta"),
             "C11": ("iter",), "C12": ("ser", "de", "ref", "mut"), "C16": ("transcode", "ser", "de", "ref", "mut", "rawtrav", "iter", "meta")}
 
